@@ -30,7 +30,7 @@ type session struct {
 	pause  func()   // called by the server before reading each line (slow/bursty reader)
 	onLine func(string)
 	regs   []string
-	from   []int // link the line of the same index arrived on
+	from   []int    // link the line of the same index arrived on
 	greet  []string // lines the server sends the moment it accepts the connection, before it has read anything
 }
 
